@@ -27,8 +27,109 @@ TIMEOUT = {'quick': 1200, 'thorough': 4 * 3600}
 CASE_TIMEOUT = {'quick': 300, 'thorough': 1200}
 
 
+_tr = []
+
+
 def setup_worker(tier=None):
   common.setup_worker(tier)
+  from metric_learn.lsml import _BaseLSML
+  from ..instrument import names
+
+  def grad_factory(orig):
+    def wrapper(self, metric, *a, **k):
+      g = orig(self, metric, *a, **k)
+      _tr.append(('G', np.array(metric, dtype=float, copy=True),
+                  np.array(g, dtype=float, copy=True)))
+      return g
+    return wrapper
+
+  def loss_factory(orig):
+    def wrapper(self, metric, *a, **k):
+      v = orig(self, metric, *a, **k)
+      _tr.append(('L', np.array(metric, dtype=float, copy=True), float(v)))
+      return v
+    return wrapper
+  names.wrap_method(_BaseLSML, '_gradient', grad_factory)
+  names.wrap_method(_BaseLSML, '_total_loss', loss_factory)
+
+
+def _judge_line_search(j, trace, det):
+  """Offline checker over the recorded solver events: every line-search
+  candidate is the documented one - the current matrix moved along the
+  gradient by one of ten log-spaced steps (relative to the gradient norm),
+  with its eigenvalues floored at 1e-8 - and the next iterate is the
+  candidate with the smallest loss that improved on the best so far."""
+  steps = np.logspace(-10, 0, 10)
+  best = None
+  i, n_cand, n_clip = 0, 0, 0
+  while i < len(trace) and trace[i][0] == 'L':
+    best = trace[i][2]          # loss of the prior
+    i += 1
+  while i < len(trace):
+    kind, M_, g_ = trace[i]
+    if kind != 'G':
+      i += 1
+      continue
+    cands = []
+    i += 1
+    while i < len(trace) and trace[i][0] == 'L':
+      cands.append(trace[i])
+      i += 1
+    gn = np.sqrt((g_ ** 2).sum())
+    if len(cands) > len(steps):
+      j.violated('C12.candidates-follow-scheme',
+                 dict(det, why='more candidates than step sizes',
+                      n=len(cands)))
+      return
+    chosen, s_run = None, best
+    for s_, (_, C_, val) in zip(steps, cands):
+      T_ = M_ - (s_ / gn) * g_
+      w_, V_ = np.linalg.eigh((T_ + T_.T) / 2)
+      E_ = (V_ * np.maximum(w_, 1e-8)).dot(V_.T)
+      n_cand += 1
+      n_clip += int(w_.min() < 1e-8)
+      sc = max(np.abs(E_).max(), 1e-300)
+      # (eigenvectors of nearly equal eigenvalues on either side of the
+      # floor are not determined; their contribution is bounded by the gap)
+      # Judged by what characterises the documented candidate - the point of
+      # {X : X >= 1e-8 I} nearest to the trial matrix T: R = C - T is positive
+      # semi-definite and complementary to C - 1e-8 I.  (A comparison with
+      # the harness's own eigen-decomposition is off by eps |T| / gap when
+      # two eigenvalues of T nearly coincide: 1.7e-7 was seen, thorough tier.)
+      Tn = max(np.abs(T_).max(), 1e-300)
+      Cn = max(np.abs(C_).max(), 1e-8)
+      R_ = C_ - (T_ + T_.T) / 2
+      floor_ = C_ - 1e-8 * np.eye(len(C_))
+      bad = None
+      if np.abs(C_ - C_.T).max() > 1e-9 * Cn:
+        bad = 'candidate not symmetric'
+      elif np.linalg.eigvalsh((C_ + C_.T) / 2).min() < 1e-8 * (1 - 1e-6) - \
+              1e-9 * Tn:
+        bad = 'eigenvalue below the floor'
+      elif np.linalg.eigvalsh((R_ + R_.T) / 2).min() < -1e-7 * Tn:
+        bad = 'candidate minus trial matrix is not positive semi-definite'
+      elif np.abs(R_.dot(floor_)).max() > 1e-7 * Tn * Cn:
+        bad = 'not the nearest point of the cone (complementarity)'
+      if bad:
+        j.violated('C12.candidates-follow-scheme',
+                   dict(det, step=float(s_), clipped=bool(w_.min() < 1e-8),
+                        why=bad,
+                        max_rel_dev=float(np.abs(C_ - E_).max() / sc)))
+        return
+      if s_run is not None and val < s_run:
+        s_run, chosen = val, C_
+    if chosen is not None and i < len(trace) and trace[i][0] == 'G':
+      if not np.array_equal(trace[i][1], chosen):
+        j.violated('C12.next-iterate-is-best-candidate',
+                   dict(det, why='the matrix of the next iteration is not '
+                        'the improving candidate with the smallest loss'))
+        return
+      j.ok('C12.next-iterate-is-best-candidate')
+    best = s_run
+  if n_cand:
+    j.ok('C12.candidates-follow-scheme')
+    j.count('line-search.candidates', n_cand)
+    j.count('line-search.clipped-candidates', n_clip)
 
 
 def cases(tier, seed):
@@ -69,7 +170,8 @@ def required(tier):
   return {'C12.M-spd': n, 'C12.descent': n, 'C12.stationary': n // 3,
           'C12.satisfied-prior-returned': 2 if q else 30,
           'C12.weights-scale-invariant': n // 4,
-          'C12.weights-unmodified': n // 2, 'C12.oracle-self-check': n}
+          'C12.weights-unmodified': n // 2, 'C12.oracle-self-check': n,
+          'C12.candidates-follow-scheme': n // 2}
 
 
 # ------------------------------------------------------------------ oracle
@@ -190,6 +292,7 @@ def run_case(spec, j):
   fp_before = fingerprint(wgt)
   est = f.est
   api.set_judge(j, well_formed=True)
+  del _tr[:]
   with Quiet():
     try:
       Xarg = ds['X']     # as generated: int64 for the 'int' variant, C or F
@@ -204,6 +307,9 @@ def run_case(spec, j):
                  mechanism='lsml-raised-' + type(e).__name__)
       return
   api.set_well_formed(False)
+  trace_main = list(_tr)
+  del _tr[:]
+  _judge_line_search(j, trace_main, det)
   j.check('C12.weights-unmodified', fingerprint(wgt) == fp_before, det)
   M = est.get_mahalanobis_matrix()
   nM = max(np.abs(M).max(), 1e-300)
